@@ -69,9 +69,19 @@ fn range_queries<S: Subject>(m: &S, lay: &Layout, a: u64, n: usize, cx: &mut Cx)
                 ensure!(fits, "get_slice({:#x}, {}) granted although the range is not contained in one region of {}", a, n, lay.describe());
                 ensure!(s.len() == n, "get_slice({:#x}, {}) has len {}", a, n, s.len());
                 let i = mapped.unwrap();
-                let want = m.host(i).wrapping_add((a - lay.regs[i].0) as usize);
-                let p = s.ptr_guard().as_ptr();
-                ensure!(p == want as *const u8, "get_slice({:#x}, {}) points at {:p}, want {:p}", a, n, p, want);
+                if m.host(i).is_null() {
+                    // no stable host pointer (mapped on demand): the slice shows the region's bytes
+                    let off = (a - lay.regs[i].0) as usize;
+                    let k = n.min(64);
+                    let mut b = vec![0u8; k];
+                    vm_memory::Bytes::read_slice(&s, &mut b, 0).map_err(|e| format!("get_slice({:#x}, {}).read_slice: {:?}", a, n, e))?;
+                    let raw = m.raw_read(i, lay.regs[i].1 as usize);
+                    ensure!(b[..] == raw[off..off + k], "get_slice({:#x}, {}) does not show the bytes of region {} at offset {:#x}", a, n, i, off);
+                } else {
+                    let want = m.host(i).wrapping_add((a - lay.regs[i].0) as usize);
+                    let p = s.ptr_guard().as_ptr();
+                    ensure!(p == want as *const u8, "get_slice({:#x}, {}) points at {:p}, want {:p}", a, n, p, want);
+                }
             }
             Err(e) => {
                 ensure!(!fits, "get_slice({:#x}, {}) refused ({:?}) although the range lies inside one region of {}", a, n, e, lay.describe());
@@ -368,6 +378,80 @@ fn gen_regress(_t: Tier) -> Box<dyn Iterator<Item = Vec<u64>>> {
     Box::new((0..2u64).map(|i| vec![i]))
 }
 
+/// xen build: collections of emulated Unix / foreign / grant regions (incl. mapped on demand)
+/// whose sizes are page multiples, sub-page, or end inside their last page.
+#[cfg(feature = "xen")]
+fn run_xen(t: &mut Tape, cx: &mut Cx) -> Result<(), String> {
+    use crate::xen_emul::{gen_kind, live, reset, Kind as XKind, XenMem};
+    reset();
+    let n = 1 + t.idx(3);
+    let mut regs = Vec::new();
+    let mut kinds = Vec::new();
+    let mut cur = 0x1000u64 * (1 + t.below(3));
+    for _ in 0..n {
+        let size = t.pick(&[4096u64, 0x1800, 0x2000, 0x2001, 1, 40, 0xfff, 4096]);
+        regs.push((cur, size));
+        kinds.push(gen_kind(t));
+        let pages = size.div_ceil(4096) * 4096;
+        // adjacent when this one fills its pages, otherwise after a hole
+        cur += if size == pages && t.chance(3, 4) { pages } else { pages + 0x1000 };
+    }
+    let lay = Layout { regs };
+    let m = XenMem::build(&lay, &kinds)?;
+    note!(cx, "xen kinds {:?}", kinds);
+    cx.nt("xen_regions");
+    if kinds.iter().any(|k| *k == XKind::GrantOnDemand) {
+        cx.nt("on_demand_region");
+    }
+    raw_fill(&m, &lay, |ri, o| ((ri * 37 + o * 3 + (o >> 8)) as u8) | 1, 0);
+    let before = live();
+    let r = run_generic(&m, &lay, t, cx);
+    ensure!(live() == before, "temporary Xen windows remain mapped after the queries: {:x?}", live());
+    r
+}
+
+#[cfg(not(feature = "xen"))]
+fn run_xen(_t: &mut Tape, _cx: &mut Cx) -> Result<(), String> {
+    Ok(())
+}
+
+/// A region whose last byte is the last address (base + size = 2^64). Whether such a region can
+/// be created is not prescribed here (C10 treats it as a don't-care); but if the library creates
+/// it and builds a collection with it, every query has to answer according to that region.
+fn run_top(t: &mut Tape, cx: &mut Cx) -> Result<(), String> {
+    use vm_memory::{GuestMemoryMmap, GuestRegionMmap};
+    let size = t.pick(&[1u64, 0x1000, 0x1800, 0x2000]);
+    let base = (u64::MAX - size).wrapping_add(1);
+    note!(cx, "region {:#x}+{:#x} (ends at the top of the address space)", base, size);
+    let top = match GuestRegionMmap::<()>::from_range(GuestAddress(base), size as usize, None) {
+        Ok(r) => r,
+        Err(_) => {
+            cx.count("top_region_refused_at_creation", 1);
+            cx.nt("top_region_attempt");
+            return Ok(());
+        }
+    };
+    let mut regs = Vec::new();
+    let mut lay = Layout { regs: vec![] };
+    if t.flag() {
+        let (s, l) = (0x1000u64 * t.below(4), t.pick(&[1u64, 0x1000, 0x1001]));
+        regs.push(GuestRegionMmap::<()>::from_range(GuestAddress(s), l as usize, None).map_err(|e| format!("{:?}", e))?);
+        lay.regs.push((s, l));
+    }
+    regs.push(top);
+    lay.regs.push((base, size));
+    let m = match GuestMemoryMmap::from_regions(regs) {
+        Ok(m) => m,
+        Err(_) => {
+            cx.count("top_region_refused_by_collection", 1);
+            cx.nt("top_region_attempt");
+            return Ok(());
+        }
+    };
+    cx.nt("top_region_built");
+    run_generic(&m, &lay, t, cx)
+}
+
 pub fn property() -> Property {
     Property {
         id: "C02",
@@ -378,6 +462,8 @@ pub fn property() -> Property {
             SubCheck { name: "mock", builds: &[Build::Std], kind: Kind::Random { quick: 6_000, thorough: 400_000, max_words: 160 }, run: run_mock },
             SubCheck { name: "tiny_universes", builds: &[Build::Std, Build::Xen], kind: Kind::Exhaustive { gen: gen_tiny }, run: run_tiny },
             SubCheck { name: "regress", builds: &[Build::Std], kind: Kind::Exhaustive { gen: gen_regress }, run: run_regress },
+            SubCheck { name: "xen_regions", builds: &[Build::Xen], kind: Kind::Random { quick: 3_000, thorough: 200_000, max_words: 160 }, run: run_xen },
+            SubCheck { name: "top_region", builds: &[Build::Std, Build::Xen], kind: Kind::Random { quick: 300, thorough: 20_000, max_words: 100 }, run: run_top },
         ],
     }
 }
